@@ -17,7 +17,7 @@ def run(ck):
         w.mem[('G', 'hdr')] = rv
     a = ck.analyse(DEC + 'get_label_or_frag_id', {'kslots': 4, 'ret_hooks': {RGH: after_hdr}})
     n = ck.count_obligations(a.obligations(), 'C19.R4')
-    ck.rule('C19.R4 panic obligations of the peek', n, 12)
+    ck.rule('C19.R4 panic obligations of the peek', n, 6)
     buf = a.arg('buffer')
     blen = buf[3]
     v_frag = variant_index(f, LOF, 'FragId')
@@ -111,7 +111,7 @@ def is_byte2(v, buf):
     if not d:
         return False
     if d[0] == 'elem':
-        return d[1] == ('pointee', ('param', 'buffer')) and d[2] == Lin.c(2)
+        return isinstance(d[1], tuple) and d[1][0] == 'pointee' and isinstance(d[1][1], tuple) and d[1][1][0] == 'param' and d[2] == Lin.c(2)
     if d[0] == 'be':
         return d[1] == buf[1] and d[2] == Lin.c(2) and d[3] == 1
     return False
